@@ -601,28 +601,27 @@ func ruleTxFn(c *Ctx, rule string) {
 		sig := ci.Common().Signature()
 		return sig.Params().Len() == 1 && types.Identical(sig.Params().At(0).Type(), mc) && errorResultIndex(sig) == 0 && sig.Results().Len() == 1
 	}
-	for _, pair := range []struct {
-		method string
-		bolt   *types.Func
-	}{{"Update", dbUpdate}, {"Batch", dbBatch}} {
-		outer := p.SSAFunc(p.Method("boltz", "DbImpl", pair.method))
+	_, _ = dbUpdate, dbBatch
+	// every place where a bolt write transaction is entered (directly, through a function value that
+	// stands for (*bbolt.DB).Update/Batch, or through a forwarding closure), with its body closure
+	seenKinds := map[string]bool{}
+	sites := txSites(c)
+	for _, site := range sites {
+		if (!site.Kinds["Update"] && !site.Kinds["Batch"]) || site.Forwarder {
+			continue
+		}
+		for k := range site.Kinds {
+			seenKinds[k] = true
+		}
+		outer := site.Outer
 		name := FnName(outer)
 		c.Analysed(name)
-		var boltCall ssa.CallInstruction
-		for _, ci := range callsIn(outer) {
-			if isCallTo(ci, pair.bolt) {
-				boltCall = ci
-			}
-		}
-		if boltCall == nil {
-			c.Bad(rule, name+": bolt transaction", c.P.Pos(outer.Pos()), "no call to bbolt DB."+pair.method+" found")
+		boltCall := site.Call
+		if len(site.Body) != 1 {
+			c.Undecided(rule, name+": closure", c.P.Pos(boltCall.Pos()), "the function passed to bbolt is not a single literal closure; cannot analyse its paths")
 			continue
 		}
-		inner := anonFromArg(boltCall.Common().Args[len(boltCall.Common().Args)-1])
-		if inner == nil {
-			c.Undecided(rule, name+": closure", c.P.Pos(boltCall.Pos()), "the function passed to bbolt is not a literal closure; cannot analyse its paths")
-			continue
-		}
+		inner := site.Body[0]
 		c.Analysed(FnName(inner))
 		// (1) outer: every return is preceded by the bolt call or a direct fn(ctx) (nested use)
 		ri := reachWithout(outer, func(in ssa.Instruction) bool { return in == ssa.Instruction(boltCall) || isFnCall(in) })
@@ -689,6 +688,9 @@ func ruleTxFn(c *Ctx, rule string) {
 		check("fn before pre-commit", isFnCall, isRunPre, "fn(ctx) precedes runPreCommitActions on every path", "runPreCommitActions is reachable without fn(ctx)")
 		check("pre-commit before success", isRunPre, isSucc, "every possibly-successful return is preceded by runPreCommitActions", "a successful return is reachable without running the pre-commit actions")
 		check("fn before success", isFnCall, isSucc, "every possibly-successful return is preceded by fn(ctx)", "a successful return is reachable without running fn(ctx)")
+	}
+	for _, k := range []string{"Update", "Batch"} {
+		c.Check(seenKinds[k], rule, "boltz: bbolt "+k+" transaction", "-", "a transaction entry running through (*bbolt.DB)."+k+" exists and was analysed", "no entry into a bbolt "+k+" transaction was found: DbImpl."+k+" does not run its function in such a transaction")
 	}
 }
 
